@@ -15,6 +15,12 @@ extern char g_old_byte;   /* harness-recorded value of a watched pre-state byte 
 #define G_IX(fd) (((unsigned)(fd)) & 7u)
 #define G_FD_OK(fd) ((fd) >= 0 && (fd) < G_NFD)
 typedef unsigned long g_off_t;
+/* frame of a per-descriptor ghost array: every slot other than fd's keeps its value (closed form over the G_NFD slots) */
+#define G_FRAME1(arr, fd, i) (G_IX(fd) == (i) || (arr)[i] == V_OLD((arr)[i]))
+/* the same relative to the entry of a loop (for loop invariants) */
+#define G_LFRAME1(arr, fd, i) (G_IX(fd) == (i) || (arr)[i] == __CPROVER_loop_entry((arr)[i]))
+#define G_LFRAME(arr, fd) (G_LFRAME1(arr, fd, 0) && G_LFRAME1(arr, fd, 1) && G_LFRAME1(arr, fd, 2) && G_LFRAME1(arr, fd, 3) && G_LFRAME1(arr, fd, 4) && G_LFRAME1(arr, fd, 5) && G_LFRAME1(arr, fd, 6) && G_LFRAME1(arr, fd, 7))
+#define G_FRAME(arr, fd) (G_FRAME1(arr, fd, 0) && G_FRAME1(arr, fd, 1) && G_FRAME1(arr, fd, 2) && G_FRAME1(arr, fd, 3) && G_FRAME1(arr, fd, 4) && G_FRAME1(arr, fd, 5) && G_FRAME1(arr, fd, 6) && G_FRAME1(arr, fd, 7))
 extern g_off_t g_fpos[G_NFD];       /* current offset of descriptor fd                        */
 extern size_t g_rd_bytes[G_NFD];    /* bytes delivered by read() on fd so far                 */
 extern size_t g_wr_bytes[G_NFD];    /* bytes accepted by write() on fd so far                 */
@@ -35,9 +41,31 @@ extern unsigned g_fin_seen; extern const char *g_fin_ptr;  /* g_hu_seen / g_hu_p
 /* write window for confinement properties: every accepted write on g_win_fd must lie inside
  * [g_win_lo, g_win_hi); g_win_bad is set by the write contract otherwise                      */
 extern int    g_win_fd; extern g_off_t g_win_lo, g_win_hi; extern int g_win_bad;
+/* Call-site guards are COMPILE-TIME switches (statics are nondeterministic under --dfcc, so a ghost flag cannot be "off by default"):
+ * -DVERIF_WRITE_GUARD: every write_data request must target g_win_fd and lie inside [g_win_lo, g_win_hi)      (contracts/io.h)
+ * -DVERIF_WRITE_ZERO:  every byte handed to write_data must be 0 (ghost index g_k2)                           (contracts/io.h)
+ * -DVERIF_SCAN_GUARD:  validate_chunk / validate_file must be called with the chunk's / the data section's stored bytes read and
+ *                      hashed exactly                                                                        (contracts/hashfn.h)
+ * Units that do not define them see contracts without these requires clauses. */
+#ifdef VERIF_WRITE_GUARD
+#define V_REQUIRES_WGUARD(x) V_REQUIRES(x)
+#else
+#define V_REQUIRES_WGUARD(x)
+#endif
+#ifdef VERIF_WRITE_ZERO
+#define V_REQUIRES_WZERO(x) V_REQUIRES(x)
+#else
+#define V_REQUIRES_WZERO(x)
+#endif
+#ifdef VERIF_SCAN_GUARD
+#define V_REQUIRES_SCAN(x) V_REQUIRES(x)
+#else
+#define V_REQUIRES_SCAN(x)
+#endif
+extern size_t g_scan_total; extern int g_sc_valid0[3];   /* scan units: stored size of the data section, valid flags before the call */
 struct zckChunk; extern struct zckChunk *g_n1, *g_n2, *g_n3, *g_canon_idx; extern int g_canon_on;   /* reader units: the nodes of the chunk list */
 #define GHOST_DEFS \
   struct zckChunk *g_n1, *g_n2, *g_n3, *g_canon_idx; int g_canon_on; \
   size_t g_k1, g_k2; char g_old_byte; g_off_t g_fpos[G_NFD]; size_t g_rd_bytes[G_NFD]; size_t g_wr_bytes[G_NFD]; \
-  int g_io_failed; ssize_t g_last_read; int g_watch_fd = -1; g_off_t g_watch_off; int g_watch_seen; unsigned char g_watch_val; const struct zckHash *g_hu_hash; size_t g_hu_total, g_hu_k; unsigned g_hu_seen; const char *g_hu_ptr; unsigned g_hu_final, g_hu_inits; size_t g_fin_total; char g_fin_val; unsigned g_fin_seen; const char *g_fin_ptr; int g_win_fd = -1; g_off_t g_win_lo, g_win_hi; int g_win_bad;
+  int g_io_failed; ssize_t g_last_read; int g_watch_fd = -1; g_off_t g_watch_off; int g_watch_seen; unsigned char g_watch_val; const struct zckHash *g_hu_hash; size_t g_hu_total, g_hu_k; unsigned g_hu_seen; const char *g_hu_ptr; unsigned g_hu_final, g_hu_inits; size_t g_fin_total; char g_fin_val; unsigned g_fin_seen; const char *g_fin_ptr; int g_win_fd = -1; g_off_t g_win_lo, g_win_hi; int g_win_bad; size_t g_scan_total; int g_sc_valid0[3];
 #endif
